@@ -1,22 +1,29 @@
 (* C16 — FD/io_uring and mmap backends behave identically.  Pinned statements only. *)
 From W Require Import model.Base model.Engine proofs.EngineBasic.
 
-(* for every configuration, mode, start state and operation sequence (appends, batches,
-   both read APIs, counts, restarts): the results with the two backends are equal, provided
-   no batch targets a topic whose name does not fit the entry header (the one known class) *)
+(* for every configuration, mode, start state and operation sequence (appends, batches, both
+   read APIs, counts, restarts, rejected operations): the results with the two backends are
+   equal.  (On the pinned tree a batch on a topic whose name does not fit the entry header
+   panicked on the FD path and returned InvalidData on the mmap path; since fix 47d4d63 the
+   argument check in front of both paths makes that branch unreachable, and the theorem needs
+   no side condition.) *)
 Theorem c16_backend_irrelevant : forall (c : Cfg) (m : mode) (ops : list op) (s : st),
-  forallb (batch_name_ok c) ops = true ->
   run {| v_cfg := c; v_mode := m; v_backend := Fd |} s ops =
   run {| v_cfg := c; v_mode := m; v_backend := Mmap |} s ops.
 Proof. exact run_backend. Qed.
 
-(* ... and that class is real: the FD path panics where the mmap path returns an error *)
-Theorem c16_refuted_long_name_batch : exists c s t es, batch c Fd s t es <> batch c Mmap s t es.
-Proof. exact backend_differs_on_long_name. Qed.
+(* non-vacuity: a history with a rejected long-name batch, an oversize append and a restart *)
+Example c16_witness :
+  let c := {| c_block := 4096; c_bpf := 8; c_max_alloc := 16384; c_hdr := 256; c_max_entries := 2000;
+              c_max_bytes := 262144; c_small := 128; c_overflow_checks := true |} in
+  let tl := {| t_id := 9; t_nlen := 217 |} in let t1 := {| t_id := 1; t_nlen := 2 |} in
+  run {| v_cfg := c; v_mode := Strict; v_backend := Fd |} init
+    [OBatch tl [{| e_pid := 0; e_len := 1 |}]; OAppend t1 {| e_pid := 1; e_len := 20000 |};
+     OAppend t1 {| e_pid := 2; e_len := 5 |}; OReopen; ORead t1 true]
+  = [RErr EInvalidData; RErr EInvalidInput; ROk; ROk; REntry {| o_pid := 2; o_skip := 0; o_len := 5 |}].
+Proof. vm_compute. reflexivity. Qed.
 
 Check c16_backend_irrelevant : forall (c : Cfg) (m : mode) (ops : list op) (s : st),
-  forallb (batch_name_ok c) ops = true ->
   run {| v_cfg := c; v_mode := m; v_backend := Fd |} s ops =
   run {| v_cfg := c; v_mode := m; v_backend := Mmap |} s ops.
 Print Assumptions c16_backend_irrelevant.
-Print Assumptions c16_refuted_long_name_batch.
